@@ -6,6 +6,7 @@ request  `overs <fuel> <links>`        links = comma separated `-` (no link) or 
 request  `unders <fuel> <links>`       the `traceOutlines` descent for every frame in index order
 request  `oversc <fuel> <links>` / `undersc <fuel> <links>`   the repaired (checked) loops
 request  `clones <fuel> <start> <table>`   start = comma separated framer indices; table = `;` separated lists (`-` empty)
+request  `clonesc <fuel> <start> <table>`  the repaired worklist (lineage check)
 request  `crash <exception class> <function>`   reply: the finding ids of `knownCrashSites` for that site, or `-`
 reply    `done` | `loop` (ResolveError) | `hang` (no result within the budget) | `count <n>` for clones
 -/
@@ -44,6 +45,14 @@ def step (_ : Unit) (line : String) : Unit × String :=
       (match run (mootsOf tb) fuel st with
        | none => ((), "hang")
        | some n => ((), "count " ++ toString n))
+    | _, _, _ => ((), "bad-op")
+  | ["clonesc", fuel, start, table] =>
+    match fuel.toNat?, parseNats start, (table.splitOn ";").mapM parseNats with
+    | some fuel, some st, some tb =>
+      (match runChecked (mootsOf tb) fuel (st.map (fun k => (k, []))) with
+       | none => ((), "hang")
+       | some none => ((), "loop")
+       | some (some n) => ((), "count " ++ toString n))
     | _, _, _ => ((), "bad-op")
   | _ => ((), "bad-op")
 
